@@ -24,7 +24,7 @@ def run(tier, seed):
         tr = os.path.join(d, "trace.ndjson")
         args = ["c10", "-out", tr, "-cases", cases, "-seed", seed]
         if tier == "quick":
-            args += ["-sample", 2400, "-configs", "ecdsa:0:0,eddsa:1:1,bls12:1:0"]
+            args += ["-sample", 4800, "-configs", "ecdsa:0:1,eddsa:1:1,bls12:1:0"]
         else:
             args += ["-sample", 0, "-configs", "ecdsa:0:0,ecdsa:1:1,eddsa:1:1,eddsa:0:0,bls12:1:0,bls12:0:1"]
         vlib.run_harness(args, timeout=6000)
